@@ -94,6 +94,7 @@ impl Reader {
             && unsafe { (*self.meta).num_consumers.load(Ordering::Relaxed) } == 1
         {
             fence(Ordering::Acquire);
+            vpoint!(LA_MODE_SINGLE);
             self.state.set(ReaderState::Single);
         }
         unsafe {
@@ -188,6 +189,7 @@ impl ReaderGroup {
         let mut max_diff: usize = 0;
         unsafe {
             for reader_ptr in &self.readers {
+                vpoint!(GMD_BETWEEN_READERS);
                 // If a reader has passed the writer during this function call
                 // then what must have happened is that somebody else has completed this
                 // written to the queue, and a reader has bypassed it. We should retry
@@ -224,6 +226,7 @@ impl ReadCursor {
         loop {
             unsafe {
                 let first_ptr = self.readers.load(CONSUME);
+                vpoint!(GMD_LOADED_PTR);
                 let rg = &*first_ptr;
                 let rval = rg.get_max_diff(cur_writer);
                 // This check ensures that the pointer hasn't changed
@@ -240,10 +243,12 @@ impl ReadCursor {
                 // relevant loads in get_max_diff are going to ordered
                 // before all loads after the function exit, and also
                 // ordered after the original pointer load
+                vpoint!(GMD_BEFORE_RECHECK);
                 let second_ptr = self.readers.load(Ordering::Relaxed);
                 if second_ptr == first_ptr {
                     return rval;
                 }
+                vpoint!(GMD_RETRY);
             }
         }
     }
@@ -254,9 +259,11 @@ impl ReadCursor {
             unsafe {
                 let current_group = &*current_ptr;
                 let raw = (*reader.pos).pos_data.load_raw(Ordering::Relaxed);
+                vpoint!(AS_SNAPSHOT);
                 let wrap = (*reader.pos).pos_data.wrap_at();
                 let (new_group, new_reader) = current_group.add_stream(raw, wrap);
                 fence(Ordering::SeqCst);
+                vpoint!(AS_BEFORE_CAS);
                 match self.readers.compare_exchange(
                     current_ptr,
                     new_group,
@@ -265,10 +272,12 @@ impl ReadCursor {
                 ) {
                     Ok(_) => {
                         fence(Ordering::SeqCst);
+                        vpoint!(AS_PUBLISHED);
                         manager.free(current_ptr, 1);
                         return new_reader;
                     }
                     Err(val) => {
+                        vpoint!(AS_CAS_LOST);
                         current_ptr = val;
                         fence(Ordering::Acquire);
                         ptr::read(new_group);
@@ -286,6 +295,7 @@ impl ReadCursor {
         loop {
             unsafe {
                 let new_group = (*current_group).remove_reader(reader.pos);
+                vpoint!(RR_BEFORE_CAS);
                 match self.readers.compare_exchange(
                     current_group,
                     new_group,
@@ -294,11 +304,13 @@ impl ReadCursor {
                 ) {
                     Ok(_) => {
                         fence(Ordering::SeqCst);
+                        vpoint!(RR_PUBLISHED);
                         if (*current_group).readers.len() == 1 {
                             self.last_pos.set(reader.load_count(Ordering::Relaxed));
                         }
                         mem.free(current_group, 1);
                         mem.free(reader.pos as *mut ReaderPos, 1);
+                        vpoint!(RR_RETIRED);
                         alloc::deallocate(reader.meta as *mut ReaderMeta, 1);
                         return self.has_readers();
                     }
